@@ -106,6 +106,12 @@ def c04_opguard(R):
         for q, fn in m.functions.items():
             seeds = opfacts.entry_seeds(tree, m, fn) if path == BAL else {}
             env = opfacts.FactEnv(fn, seeds)
+            # a handler that is only reached through a table of callables (never called by name) has entry facts this
+            # rule cannot see: what its operand may be is decided where the table is indexed
+            name_ = fn.name
+            called = any(isinstance(c_, ast.Call) and (dotted(c_.func) or "").split(".")[-1] == name_ for c_ in ast.walk(m.tree))
+            referenced = any(isinstance(x_, (ast.Attribute, ast.Name)) and (dotted(x_) or "").split(".")[-1] == name_ and not (isinstance(getattr(x_, "_parent", None), ast.Call) and x_._parent.func is x_) for x_ in ast.walk(m.tree))
+            via_table = path == BAL and not called and referenced
             for cmp_ in (x for x in walk_no_nested(fn) if isinstance(x, ast.Compare)):
                 if any(isinstance(o, (ast.Is, ast.IsNot, ast.In, ast.NotIn)) for o in cmp_.ops):
                     continue
@@ -133,6 +139,9 @@ def c04_opguard(R):
                     idx = leaf.slice.value
                     ops = env.ops_at(cmp_, base)
                     btxt = env.al.text(base)
+                    if ops is None and via_table:
+                        R.ok(m, cmp_, f"{q}: reached only through a dispatch table; entry facts not visible here", nontrivial=False)
+                        continue
                     if ops is None:
                         R.bad(
                             m,
@@ -300,7 +309,6 @@ _NEW_ROLES = (
     "relocatable_annotations = frozenset(a for a in annotations if not a.eliminatable and a.relocatable)",
     "for a in b_args: ...",
     "hash_ = Base._calc_hash(op, a_args, annotations, length)",
-    "self = cls._hash_cache.get(hash_, None)",
     "depth = arg_max_depth + 1",
 )
 
@@ -467,15 +475,23 @@ def c05_stored(R):
     R.check(ast.unparse(i.args[2]) == "variables", m, i, "variables stored as computed", f"variables stored as `{norm(i.args[2])}`")
     # the store key is the hash just computed
     stores = [st for st in walk_no_nested(fn) if isinstance(st, ast.Assign) and isinstance(st.targets[0], ast.Subscript) and "_hash_cache" in ast.unparse(st.targets[0])]
+    # the freshly allocated object: whatever local receives super().__new__(cls)
+    fresh = [
+        st.targets[0].id
+        for st in walk_no_nested(fn)
+        if isinstance(st, ast.Assign) and isinstance(st.targets[0], ast.Name) and isinstance(st.value, ast.Call) and isinstance(st.value.func, ast.Attribute)
+        and st.value.func.attr == "__new__" and isinstance(st.value.func.value, ast.Call) and dotted(st.value.func.value.func) == "super"
+    ]
+    obj = fresh[0] if len(fresh) == 1 else "self"
     R.check(
-        len(stores) == 1 and ast.unparse(stores[0].targets[0].slice) == "hash_" and ast.unparse(stores[0].value) == "self",
+        len(stores) == 1 and ast.unparse(stores[0].targets[0].slice) == "hash_" and ast.unparse(stores[0].value) == obj,
         m,
         fn,
         "the new node is filed under the hash just computed",
         "the new node is not stored as _hash_cache[hash_] = self",
         construct="Base.__new__: cache store",
     )
-    sets = [st for st in walk_no_nested(fn) if isinstance(st, ast.Assign) and ast.unparse(st.targets[0]) == "self._hash"]
+    sets = [st for st in walk_no_nested(fn) if isinstance(st, ast.Assign) and ast.unparse(st.targets[0]) == f"{obj}._hash"]
     R.check(len(sets) == 1 and ast.unparse(sets[0].value) == "hash_", m, fn, "self._hash is that hash", "self._hash is not set to hash_",
             construct="Base.__new__: self._hash")
 
@@ -922,8 +938,9 @@ def c06_bypass(R):
     m = tree.mod(BASE)
     first = [st for st in fn.body if isinstance(st, ast.If)][0]
     t = ast.unparse(first.test)
+    walrus = [x for x in ast.walk(first.test) if isinstance(x, ast.NamedExpr) and ast.unparse(x.value) == "cls._hash_cache.get(hash, None)"]
     R.check(
-        "hash is not None" in t and "cls._hash_cache.get(hash, None)" in t and ast.unparse(first.body[0]) == "return self",
+        "hash is not None" in t and len(walrus) == 1 and isinstance(first.body[0], ast.Return) and ast.unparse(first.body[0].value) == walrus[0].target.id,
         m,
         first,
         "a supplied hash short-cuts only to the table's own entry",
@@ -1355,19 +1372,35 @@ def c07_resimp(R):
     blk = [st for st in fn.body if isinstance(st, ast.If) and ast.unparse(st.test) == "expr.annotations"]
     R.need(len(blk) == 1, "simplify: annotation re-attachment block not found")
     Fr = util.Frags(fn)
+    # the block itself, or the private helper it hands the work to
+    scope = util.reach(blk[0], util.helper_resolver(tree, m))
     R.check(
-        Fr.has("ast_args = tuple(a for a in expr.args if isinstance(a, Base))", blk[0])
-        and Fr.has(
-            "annotations = tuple(set(chain(chain.from_iterable(a._relocatable_annotations for a in ast_args), tuple(a for a in expr.annotations))))",
-            blk[0],
+        any(
+            Fr.has(
+                "ast_args = tuple(a for a in expr.args if isinstance(a, Base))\n"
+                "annotations = tuple(set(chain(chain.from_iterable(a._relocatable_annotations for a in ast_args), tuple(a for a in expr.annotations))))",
+                sc,
+            )
+            for sc in scope
         ),
         m,
         blk[0],
         "annotations to keep = the node's own + direct arguments' relocatable ones",
         "the set of annotations re-attached after simplification changed",
     )
+    keep = Fr.code("annotations")
+    reattached = any(
+        isinstance(c, ast.Call) and isinstance(c.func, ast.Attribute) and c.func.attr == "annotate" and len(c.args) == 1 and isinstance(c.args[0], ast.Starred) and ast.unparse(c.args[0].value) == keep
+        for sc in scope
+        for c in ast.walk(sc)
+    )
+    compared = any(
+        isinstance(c, ast.Compare) and len(c.ops) == 1 and isinstance(c.ops[0], (ast.Eq, ast.NotEq)) and ast.unparse(c.left) == keep and ast.unparse(c.comparators[0]).endswith(".annotations")
+        for sc in scope
+        for c in ast.walk(sc)
+    )
     R.check(
-        Fr.has("simplified = simplified.annotate(*annotations)", blk[0]) and Fr.has("annotations != simplified.annotations", blk[0]),
+        reattached and compared,
         m,
         blk[0],
         "they are re-attached when the simplified expression differs",
